@@ -271,13 +271,56 @@ pub extern "C" fn nf_r1_load_exit() {
     drop(g);
     thread_exit_self(1);
 }
-/// thread 3 (started after thread 1 has exited): store(obj1), then a load which must not return anything older
+/// thread 3 (started after thread 1 has exited): store(obj1), then a load which must not return anything older.
+/// The thread has one earlier helping transaction behind it (generation preset to 4, like thread 1 after its
+/// warm-up), so its load carries the same generation number as the load of thread 1.
 #[no_mangle]
 pub extern "C" fn nf_r3_store_load_rec() {
     a().store(pool(1).clone());
+    set_generation(4);
     let g = a().load();
     let i = idx_checked(&g, 34);
     vassert(i == 1 || i == 2, 35);
     *CX_RES[0].mu() = i;
     drop(g);
+}
+
+// ------------------------------------------------------------------ C07 on the helping path
+/// like nf_setup, destruction scribbles over the payload (a plain write)
+#[no_mangle]
+pub extern "C" fn nf_setup_scribble() {
+    nf_setup();
+    SCRIBBLE.store_ungated(1);
+}
+/// reader: whatever it gets (also from a helper), the payload is what was written before publication
+#[no_mangle]
+pub extern "C" fn nf_r_published() {
+    let g = a().load();
+    let p = g.read();
+    let i = g.idx();
+    vassert((i == 0 && p == 10) || (i == 1 && p == 77) || (i == 3 && p == 78), 30);
+    drop(g);
+}
+/// writers: take a fresh handle out of the pool objects, fill it in (plain write), publish; the old value may die
+#[no_mangle]
+pub extern "C" fn nf_w_publish1() {
+    let v = CX_POOL[1].mu().take().unwrap();
+    v.set_payload(77);
+    a().store(v);
+}
+#[no_mangle]
+pub extern "C" fn nf_w_publish3() {
+    let v = CX_POOL[3].mu().take().unwrap();
+    v.set_payload(78);
+    a().store(v);
+}
+/// final: only accounting that does not depend on which pool handles are left
+#[no_mangle]
+pub extern "C" fn nf_final_pub() {
+    vassert(slots_all_empty(), 40);
+    let g = a().load();
+    let p = g.read();
+    vassert(p == 77 || p == 78, 41);
+    drop(g);
+    cover(13);
 }
